@@ -35,7 +35,7 @@ TRUSTED = ["harness PickleBoundaryExecutor (cloudpickle.dumps at submit, loads +
            "reflection of the real object graph into the model's initial heap (harness/props/c10.py reflect)",
            "C01 (Dag.v) for the scheduling part of 'every completion order'"]
 ASSUMPTIONS = ["node functions deterministic and integer valued; DAG-wired composites; fresh graphs (first run is not a cache hit)",
-               "a boundary-merged macro that is SUBMITTED AGAIN is outside the modelled domain (implementation + oracle only)"]
+               "For nodes are driven on the implementation and judged by the oracle only (their body construction is C16's model)"]
 
 KIND_MAN, KIND_PB, KIND_IPB = "man", "pb", "ipb"
 REAL = ("thread", "proc", "cproc", "ithread", "icproc")
@@ -701,36 +701,14 @@ def model_term(case):
     heap, target = recall(case)
     if heap is None or not modelled(case):
         return None
-    mode = os.environ.get("VERIF_C10_MODE", "AsWritten")     # Repaired: only to validate the proposed patch in a scratch worktree
+    mode = os.environ.get("VERIF_C10_MODE", "AsWritten")     # Unpatched: the merge before build/c10_fix.diff (for comparisons only)
     if case["kind"] == "flow":
         return f"flow_obs {mode} {heap} 0%nat {cb(bool(case.get('probe')) and not is_real(case))}"
     return f"cycle_obs {mode} {heap} 0%nat {cn(target)} {cl(op_coq(o) for o in case['ops'])}"
 
 
 def modelled(case):
-    if any(k["t"] == "for" for k in case["kids"]):
-        return False
-    if case["kind"] == "cycle" and resubmits_merged(case):
-        return False
-    return True
-
-
-def resubmits_merged(case):
-    """a composite that came back across a pickle boundary is submitted again (outside the modelled domain
-    unless it has a parent: then pickling at submit raises, which the model reproduces)"""
-    kid = case["kids"][case["target"]]
-    if kid["t"] == "leaf" or kid.get("ex") not in BOUNDARY or not case.get("parentless"):
-        return False
-    merged, out = False, False
-    for op in case["ops"]:
-        if op[0] == "run" and not out:
-            if merged:
-                return True
-            out = True
-        elif op[0] == "complete" and out:
-            out = False
-            merged = True       # over-approximation (a failed completion does not merge): such cases stay impl-only
-    return False
+    return not any(k["t"] == "for" for k in case["kids"])      # the construction of a For body is not modelled
 
 
 # =========================================================================== what the case says was sent where
@@ -779,30 +757,12 @@ def crossing(case):
     return [(p, s) for p, s, comp in effective(case) if s in BOUNDARY]
 
 
-LINKED = {("MF", "inner"): ("in", "out"), ("ME", "deep"): ("in",)}     # nested macros value-linked to their parent's IO
-
-
-def linked_merged(case):
-    """[(path of the parent macro, path of the merged nested macro, link directions)]"""
-    merged = {p for p, s in merged_composites(case)}
-    out = []
-    for i, kid in enumerate(case["kids"]):
-        if kid["t"] != "macro":
-            continue
-        base = "/n0" if case.get("parentless") else f"/wf/n{i}"
-        for (cls, rel), dirs in LINKED.items():
-            if kid["cls"] == cls and base + "/" + rel in merged:
-                out.append((base, base + "/" + rel, dirs))
-    return out
-
-
 def under(path, roots):
     return any(path == r or path.startswith(r + "/") for r in roots)
 
 
 # =========================================================================== oracle
-LOW = ("path", "owner", "lock-wf", "lock-merged", "resubmit", "for-connections", "after-pickle", "after-rerun",
-       "nested-result")     # signatures that a recorded finding may explain: reported last
+LOW = ("lock-wf",)     # the signature the recorded finding may explain: reported last
 
 
 def structure_violations(r, path, out):
@@ -851,8 +811,7 @@ def violations(case, obs):
         if not is_real(case) and obs["calls"] != ref[2]:
             out.append(("not-once", f"function calls {obs['calls']} vs all-local {ref[2]}", None))
         for path, what in obs["lost"]:
-            sig = "for-connections" if under(path, [p for p, s in merged_for(case)]) else "lost"
-            out.append((sig, f"{path} lost {what}", path))
+            out.append(("lost", f"{path} lost {what}", path))
         if obs["pending"]:
             out.append(("left-running", f"{obs['pending']} job(s) never completed", None))
         for path, label, r in obs["model"][1]:
@@ -951,11 +910,6 @@ def collect_failed(r, path, acc):
         collect_failed(k, path + "/" + k[0], acc)
 
 
-def merged_for(case):
-    fors = {f"/wf/n{i}" for i, k in enumerate(case["kids"]) if k["t"] == "for"}
-    return [(p, s) for p, s in merged_composites(case) if p in fors]
-
-
 def oracle(case, obs):
     v = violations(case, obs)
     if not v:
@@ -966,43 +920,13 @@ def oracle(case, obs):
 
 # =========================================================================== known findings (cause predicates)
 def known(case, obs, verdict):
+    """the one clause the code still violates: a WORKFLOW that is out on an executor leaves its inputs (its
+    children's channels) writable.  Cause predicate: the root is placed on an executor and the accepted
+    assignment is to an input of the root."""
     sig = verdict.split(":")[0]
     subject = verdict.rsplit("[subject=", 1)[1].rstrip("]") if "[subject=" in verdict else "None"
-    merged = [p for p, s in merged_composites(case)]
-    with_parent = [p for p in merged if p.count("/") >= 2]                      # everything but the root
-    not_for = [p for p in merged if p not in [q for q, s in merged_for(case)]]
-    # a composite merged on the FAR side (instructions below a shipped composite) has a parent there: the far side
-    # cannot pickle its result, the shipped composite fails as a whole
-    tops = [q for q, s in crossing(case) if not any(q.startswith(r + "/") for r, s2 in crossing(case))]
-    nested_tops = sorted({q for q in tops for p in merged if p.startswith(q + "/")})
-    if nested_tops:
-        if sig == "raised" and subject == "None" and "/wf" in nested_tops:
-            return "S15-detached-path-kept"
-        above = any(t.startswith(subject + "/") for t in nested_tops)      # e.g. the local macro that holds the shipped one
-        if sig in ("failed", "wrong-output", "not-once") and (under(subject, nested_tops) or above or subject == "None"):
-            return "S15-detached-path-kept"
-    if nested_tops and case["kind"] == "cycle" and sig in ("spurious-failure", "failed"):
-        return "S15-detached-path-kept"
-    links = linked_merged(case)
-    if sig == "dangling" and "value receiver" in verdict and subject in [a for a, b, d in links]:
-        return "C10-value-links-to-merged-node-lost"
-    if any("out" in d for a, b, d in links) and sig in ("wrong-output", "raised", "failed", "not-once", "stale",
-                                                        "after-rerun", "spurious-failure"):
-        return "C10-value-links-to-merged-node-lost"
-    if sig == "path" and under(subject, with_parent):
-        return "S15-detached-path-kept"
-    if sig in ("after-pickle", "resubmit") and with_parent:
-        return "S15-detached-path-kept"
-    if sig == "owner" and subject in not_for:
-        return "C10-merged-io-owned-by-copy"
-    if sig in ("lock-merged", "after-rerun", "resubmit") and not_for:
-        return "C10-merged-io-owned-by-copy"
-    if sig == "lock-wf" and case.get("root_ex"):
+    if sig == "lock-wf" and case["kind"] == "flow" and case.get("root_ex") and subject == "/wf":
         return "C10-workflow-inputs-unlocked"
-    if sig == "for-connections" and merged_for(case):
-        return "C10-for-merge-drops-connections"
-    if sig in ("wrong-output", "dangling", "one-sided", "after-rerun") and merged_for(case):
-        return "C10-for-merge-drops-connections"
     return None
 
 
